@@ -760,6 +760,46 @@ _s("noexcept_of_operators", r"""
                     int(noexcept(p > q)), int(noexcept(a + b)), int(noexcept(a.in(seconds))), int(noexcept(-a)), int(noexcept(p - q)));
 """)
 
+_s("mixed_ordering_values", r"""
+        // C++20's library builds the < of pair / tuple on the elements' <=>; for elements of
+        // DIFFERENT quantity types the library's <=> has to agree with its own <
+        const auto a = std::make_tuple(seconds(std::uint32_t{5000000}));
+        const auto b = std::make_tuple(milli(seconds)(std::uint64_t{1000000000}));
+        const auto c = std::make_tuple(make_quantity_point<Seconds>(std::uint32_t{5000000}), 1);
+        const auto d = std::make_tuple(make_quantity_point<Milli<Seconds>>(std::uint64_t{1000000000}), 1);
+        std::printf("mixed_ordering_values %d %d %d %d | %d %d %d %d\n", int(a < b), int(b < a), int(std::get<0>(a) < std::get<0>(b)), int(a == b), int(c < d), int(d < c), int(std::get<0>(c) < std::get<0>(d)),
+                    int(std::make_tuple(minutes(1), 2) < std::make_tuple(seconds(60), 3)));
+""", defs="#include <tuple>\n#include <utility>\n")
+
+_s("mixed_ordering_accept", r"""
+        // the same, with element types whose comparison the library's < accepts: a narrow rep
+        // against a finer unit of a wider rep; signed against unsigned
+        const auto a = std::make_tuple(seconds(std::int16_t{7}));
+        const auto b = std::make_tuple(milli(seconds)(6999));
+        const auto c = std::make_tuple(seconds(-1));
+        const auto d = std::make_tuple(seconds(1u));
+        std::printf("mixed_ordering_accept %d %d %d %d\n", int(a < b), int(b < a), int(c < d), int(std::get<0>(c) < std::get<0>(d)));
+""", defs="#include <tuple>\n#include <utility>\n")
+
+_s("custom_magnitude_base", r"""
+        // docs/reference/magnitude.md, "Custom bases": irrational bases of the user's own, one of
+        // them below one
+        constexpr auto ln2 = Magnitude<probe_mag::Ln2>{};
+        constexpr auto phi = Magnitude<probe_mag::Phi>{};
+        struct Nepers : decltype(Seconds{} * Magnitude<probe_mag::Ln2>{}) {};
+        struct Goldens : decltype(Seconds{} * Magnitude<probe_mag::Phi>{}) {};
+        std::printf("custom_magnitude_base %.17g %.17g %.17g %.17g %.9g %d\n", get_value<double>(ln2), get_value<double>(phi), make_quantity<Nepers>(2.0).in(seconds),
+                    make_quantity<Goldens>(2.0).in(seconds), double(get_value<float>(ln2 * ln2)), int(representable_in<int>(phi)));
+""", defs="""namespace probe_mag {
+struct Ln2 {
+    static constexpr long double value() { return 0.693147180559945309417232121458176568L; }
+};
+struct Phi {
+    static constexpr long double value() { return 1.618033988749894848204586834365638118L; }
+};
+}  // namespace probe_mag
+""")
+
 _s("float_inexact", r"""
         // Inexact values are fine to print as long as the *sequence of operations* is fixed by the
         // library (IEEE arithmetic is deterministic; no -ffast-math, no FMA contraction on the
